@@ -49,3 +49,34 @@ pub fn replica<'a, 'b>(
         info,
     )
 }
+
+// ---- H4: placement of the age-based automatic commit ------------------------------------------
+
+static AGE_COUNTDOWN: std::sync::atomic::AtomicI64 = std::sync::atomic::AtomicI64::new(-1);
+static ACCESS_COUNT: AtomicU64 = AtomicU64::new(0);
+
+/// Make the open write transaction look older than `MAX_COMMIT_DELAY` right before the `n`-th
+/// (1-based) access to the store's tables from now on, exactly once. `0` disarms.
+pub fn age_transaction_before_access(n: u64) {
+    AGE_COUNTDOWN.store(if n == 0 { -1 } else { n as i64 }, Ordering::SeqCst);
+}
+
+/// Number of table accesses (`tables()` / `modify()`) since the last call.
+pub fn take_access_count() -> u64 {
+    ACCESS_COUNT.swap(0, Ordering::SeqCst)
+}
+
+/// Called at the start of every table access; returns true if the transaction should be aged now.
+pub(crate) fn on_store_access() -> bool {
+    ACCESS_COUNT.fetch_add(1, Ordering::SeqCst);
+    let left = AGE_COUNTDOWN.load(Ordering::SeqCst);
+    if left < 0 {
+        return false;
+    }
+    if left == 1 {
+        AGE_COUNTDOWN.store(-1, Ordering::SeqCst);
+        return true;
+    }
+    AGE_COUNTDOWN.store(left - 1, Ordering::SeqCst);
+    false
+}
